@@ -36,7 +36,7 @@ func genSetup(r *kit.Rand, inFunc bool) []string {
 	if r.Chance(1, 2) {
 		add(kit.Pick(r, []string{"readonly r1=rv", "declare -r r1=rv"}))
 	}
-	add(kit.Pick(r, []string{"a=(1 2 3)", "a=(one)", "a=(x 'y z' w v)", "declare -a a=(1 2)"}))
+	add(kit.Pick(r, []string{"a=(1 2 3)", "a=(one)", "a=(x 'y z' w v)", "declare -a a=(1 2)", "a=(x '' z)", "a=(p q r s t); unset 'a[4]' 'a[3]'"}))
 	if r.Chance(2, 3) {
 		add(kit.Pick(r, []string{"sp=([2]=x [5]=y)", "sp=([1]=q)", "sp=(a b); sp[7]=far"}))
 	}
@@ -57,7 +57,7 @@ func genSetup(r *kit.Rand, inFunc bool) []string {
 		add(kit.Pick(r, []string{"set -o noglob", "shopt -s nullglob", "shopt -s dotglob", "set -o pipefail", "shopt -s extglob"}))
 	}
 	if r.Chance(1, 2) {
-		add(kit.Pick(r, []string{"cd /home/d1", "cd /home/d2", "cd /home/d1/sub", "pushd /home/d1 >/dev/null"}))
+		add(kit.Pick(r, []string{"cd /home/d1", "cd /home/d2", "cd /home/d1/sub", "pushd /home/d1 >/dev/null", "pushd /home/d1 >/dev/null; pushd /home/d2 >/dev/null", "cd /home/d1; pushd sub >/dev/null; pushd / >/dev/null"}))
 	}
 	if r.Chance(1, 2) {
 		add(kit.Pick(r, []string{"set -- p1 p2 p3", "set -- 'p 1'", "set --"}))
@@ -75,6 +75,10 @@ func genMutations(r *kit.Rand, n int, inFunc bool, quiet bool) []string {
 	pool := []string{
 		"s1=changed", "s1+=x", "s2=", "unset s1", "s1=(now an array)",
 		"a+=([1]=X)", "a+=([0]=Z w)", "a+=([-1]=neg)", "sp+=([2]=chg)", "sp+=([5]=chg [9]=far)", "m+=([k]=new)", "m+=([q]=1)", "read -a sp <<< 's1 s2'", "unset 'm[k2]'", "declare -A m", "export a", "readonly sp", "declare -x m",
+		"pushd >/dev/null 2>&1", "popd -n >/dev/null 2>&1", "pushd -n /home/d2 >/dev/null 2>&1", "pushd +1 >/dev/null 2>&1", "popd +0 >/dev/null 2>&1", "cd - >/dev/null 2>&1", "dirs -c 2>/dev/null",
+		": ${a[1]:=dflt}", ": ${a[0]:=x}", ": ${sp[3]=hole}", ": ${sp[-1]:=neg}", ": ${a[7]=far}", ": ${m[k]:=dm}", ": ${m[nk]=nv}", ": ${s1:=ds}", ": ${s3=unset-default}", "echo ${la[1]:=ld} >/dev/null",
+		"echo -e 'x\\ty' >/dev/null", "echo -e \"$s1\\n\" >/dev/null", "printf '%b %s %d\\n' 'a\\tb' \"$s1\" 3 >/dev/null", "printf '%q\\n' \"$s2\" >/dev/null", "echo -n $s1 >/dev/null", "type f1 al echo >/dev/null 2>&1", "command -v f1 >/dev/null", "test -d /home/d1 && [ -f /home/f1.txt ]", "[[ $s1 == f* && -n $s2 ]]", "echo /home/d*/ *.txt >/dev/null", "echo {1..3} ~ $((1+2)) >/dev/null", "pwd >/dev/null", "dirs >/dev/null", "hash 2>/dev/null", "times >/dev/null", "help echo >/dev/null 2>&1", "true; false; :", "echo ${s1@Q} ${a[@]@Q} ${!m[@]} >/dev/null", "x=$(echo -e 'c\\ts')", "cat <<< \"$s1\" >/dev/null", "cat <<EOF >/dev/null\n$s1 ${a[0]}\nEOF", "trap 'echo -e t' ERR", "declare -p s1 a m >/dev/null 2>&1", "alias >/dev/null", "shopt >/dev/null", "set +o >/dev/null", "wait",
+		"((s1=5))", "let 's2=7'", "printf -v 'a[1]' %s pv 2>/dev/null", "read 'a[2]' <<< rd", "for a in loopvar; do :; done", "for s1 in l1 l2; do :; done", "select_var=1", "declare -n nref=s1; nref=via-nameref", "declare -n aref=a; aref[0]=via-nameref", "unset -v s2", "export -n e1", "declare +r r1 2>/dev/null", "local_in_f() { local s1=inner; s2=outer-from-func; a[0]=from-func; }; local_in_f",
 		"a[0]=z", "a+=(n)", "a+=x", "a[5]=q", "a[-1]=neg", "unset 'a[1]'", "unset a", "a=(re set)", "a[1]+=app",
 		"sp[3]=new", "sp+=(w)", "unset 'sp[2]'", "sp+=x", "sp[2]=chg",
 		"m[k]=changed", "m[new]=1", "m+=([z]=1)", "unset 'm[k]'", "m[k]+=app",
@@ -96,7 +100,7 @@ func genMutations(r *kit.Rand, n int, inFunc bool, quiet bool) []string {
 		s := kit.Pick(r, pool)
 		if quiet {
 			s += " 2>/dev/null"
-			if strings.Contains(s, "()") || strings.HasPrefix(s, "for ") {
+			if strings.Contains(s, "()") || strings.HasPrefix(s, "for ") || strings.Contains(s, "\n") || strings.HasSuffix(s, "/dev/null") || strings.HasSuffix(s, "2>&1") {
 				s = strings.TrimSuffix(s, " 2>/dev/null")
 			}
 		}
@@ -107,7 +111,7 @@ func genMutations(r *kit.Rand, n int, inFunc bool, quiet bool) []string {
 
 // dumpLines prints every piece of shell state the C27 statement names.
 func dumpLines(inFunc bool) []string {
-	names := "s1 s2 s3 e1 r1 enew gnew gv n opt a sp m OPTIND IFS PWD OLDPWD"
+	names := "s1 s2 s3 e1 r1 enew gnew gv n opt a sp m OPTIND IFS PWD OLDPWD nref aref select_var x i"
 	if inFunc {
 		names += " l1 l2 la"
 	}
